@@ -9,7 +9,9 @@
     and standard-library axioms;
  4. runs the hygiene grep on the TIE files;
  5. spot check: the generated definitions against the running Python functions on dyadic inputs (exact, vm_compute).
-Exit code 0 = all lemmas hold of the current source; 1 otherwise.  `--table` prints the integration table."""
+Exit code 0 = all lemmas hold of the current source; 1 otherwise.  `--table` prints the integration table.
+`--mutations` (after a green plain run): applies each change of MUTATIONS to a private copy of the source and shows that the
+translator refuses it or the equality lemmas stop compiling (nothing under coq/ is touched)."""
 import importlib
 import os
 import pkgutil
@@ -42,9 +44,20 @@ TABLE = [
      "gen_probability_to_right_jump_eq_model", "Tie_Coupling", "Model.Coupling1d.prob_right", "C03"),
     ("GenTieCoupling", "rpylib/process/coupling/couplingmarkovchain.py: CouplingSimulation.coupling_state",
      "gen_coupling_state_eq_model", "Tie_Coupling", "Model.Coupling1d.coupling_state", "C03"),
+    # ---- second pass (TIE2)
+    ("GenTieChain", "rpylib/distribution/samplingfactory.py: compute_intensity_of_jumps (1-d model; comprehension, product, next unrolled)",
+     "gen_compute_intensity_of_jumps_1d_eq_model", "Tie_Chain", "Model.Chain.intensity1", "C01 (C19 default rate, C02 jump law)"),
+    ("GenTieChain2d", "rpylib/distribution/samplingfactory.py: compute_intensity_of_jumps (2-d model, product grid; 8 blocks unrolled)",
+     "gen_compute_intensity_of_jumps_2d_eq_model", "Tie_Chain2d", "Model.Chain.intensity2", "C01 (2-d rates), C19"),
+    ("GenTieAlias", "rpylib/distribution/variate/alias.py: AliasMethod._draw_with_u (np.uint = floor for u >= 0)",
+     "gen_draw_with_u_eq_model", "Tie_Alias", "Model.Alias.alias_draw", "C02"),
+    ("GenTiePaths", "rpylib/process/markovchain/markovchain.py: chain_over_intervals (list of lists)",
+     "gen_chain_over_intervals_eq_model", "Tie_Paths", "Model.Paths.mc_jump_values / chain_running", "C15"),
 ]
 EXAMPLES = [("Tie_Drift", "gen_compute_mu_h_runs"), ("Tie_Chain", "gen_create_q_vector_runs"),
-            ("Tie_Bst", "gen_sample_with_u_runs"), ("Tie_Coupling", "gen_coupling_state_runs")]
+            ("Tie_Bst", "gen_sample_with_u_runs"), ("Tie_Coupling", "gen_coupling_state_runs"),
+            ("Tie_Chain", "gen_compute_intensity_of_jumps_1d_runs"), ("Tie_Paths", "gen_chain_over_intervals_runs"),
+            ("Tie_Chain2d", "gen_compute_intensity_of_jumps_2d_runs"), ("Tie_Alias", "gen_draw_with_u_runs")]
 
 
 def tie_modules():
@@ -69,15 +82,40 @@ def spot_check(seed=20260930, n=40):
     from rpylib.distribution.samplingfactory import create_q_vector
     from rpylib.distribution.variate.binarysearchtree import BinarySearchTree
     from rpylib.process.coupling.couplingmarkovchain import CouplingSimulation
+    from rpylib.process.markovchain.markovchain import chain_over_intervals
+    from rpylib.distribution.samplingfactory import compute_intensity_of_jumps
+    from rpylib.model.levymodel.levymodel import LevyModel
+    from rpylib.distribution.variate.alias import AliasMethod, create_alias
+    import types
     q, z, L = common.qlit, common.zlit, common.lst
     rnd = random.Random(seed)
+    rnd2 = random.Random(seed + 1)   # second-pass inputs: own stream, the first-pass cases stay what they were
 
     class Nu:  # mass(a, b) = (b - a)/2 + (b^2 - a^2)/4: exact in floats on the dyadic inputs below
         @staticmethod
         def integrate(a, b):
             return (b - a) * 0.5 + (b * b - a * a) * 0.25
     mass_coq = "(fun a b : Q => (b - a) * (1 # 2) + (b * b - a * a) * (1 # 4))%Q"
-    mu, qv, cp, bs = [], [], [], []
+    stub = types.SimpleNamespace(levy_triplet=types.SimpleNamespace(nu=Nu))
+
+    class Model1d:  # the 1-d model as compute_intensity_of_jumps sees it; mass is LevyModel.mass itself (unwraps the 1-tuples)
+        @staticmethod
+        def dimension_model():
+            return 1
+
+        @staticmethod
+        def mass(a, b):
+            return LevyModel.mass(stub, a=a, b=b)
+    class Model2d:  # rectangle mass, exact in floats on the dyadic grids below
+        @staticmethod
+        def dimension_model():
+            return 2
+
+        @staticmethod
+        def mass(a, b):
+            return (b[0] - a[0]) * (b[1] - a[1]) * 0.25 + (b[0] * a[1]) * 0.125
+    mass2_coq = "(fun a b : Q * Q => (fst b - fst a) * (snd b - snd a) * (1 # 4) + (fst b * snd a) * (1 # 8))%Q"
+    mu, qv, cp, bs, ij, co, i2, al = [], [], [], [], [], [], [], []
     for _ in range(n):
         m = rnd.randint(1, 5)
         left = sorted({-rnd.randint(1, 64) / 8 for _ in range(m)})
@@ -88,6 +126,23 @@ def spot_check(seed=20260930, n=40):
         ax = L([q(x) for x in axis])
         mu.append(common.tup([ax, z(o), q(Fraction(float(compute_mu_h(Nu, grid, axis, o))))]))
         qv.append(common.tup([ax, z(o), L([q(Fraction(float(x))) for x in create_q_vector(Nu, grid)])]))
+        ij.append(common.tup([ax, z(o), q(Fraction(float(compute_intensity_of_jumps(Model1d, grid))))]))
+        vals = [[rnd2.randint(-64, 64) / 16 for _ in range(rnd2.choice([0, 0, 1, 2, 3]))] for _ in range(rnd2.randint(0, 5))]
+        co.append(common.tup([L([L([q(x) for x in v]) for v in vals]),
+                              L([q(Fraction(float(x))) for x in chain_over_intervals([np.array(v) for v in vals])])]))
+        left2 = sorted(-rnd2.randint(1, 64) / 8 for _ in range(o))            # second axis: same length and origin coordinate
+        right2 = sorted(rnd2.randint(1, 64) / 8 for _ in range(len(axis) - o - 1))
+        axis2 = np.array(left2 + [0.0] + right2)
+        grid2 = CTMCGrid(h=grid.h, origin_coordinate=o, axes=[axis, axis2])
+        i2.append(common.tup([ax, L([q(x) for x in axis2]), z(o), q(Fraction(float(compute_intensity_of_jumps(Model2d, grid2))))]))
+        ka = rnd2.randint(1, 8)
+        wa = [rnd2.randint(1, 16) for _ in range(ka)]
+        sampler = AliasMethod.__new__(AliasMethod)      # the tables of the real construction, one draw with a given uniform
+        sampler.K = ka
+        sampler.J, sampler.q = create_alias(np.array([x / sum(wa) for x in wa], dtype=float))
+        ua = rnd2.randint(0, 1023) / 1024
+        al.append(common.tup([z(ka), L([q(Fraction(float(x))) for x in sampler.q]), L([z(int(x)) for x in sampler.J]), q(ua),
+                              z(int(sampler._draw_with_u(ua)))]))
         inc = rnd.choice([i for i in range(-o, len(axis) - o) if i != 0])
         p = float(CouplingSimulation.probability_to_right_jump(grid, Nu.integrate, inc))
         cp.append(common.tup([ax, z(o), z(inc), q(Fraction(p))]))
@@ -99,18 +154,156 @@ def spot_check(seed=20260930, n=40):
         u = rnd.randint(0, 1023) / 1024
         bs.append(common.tup([z(tree.K), L([q(Fraction(float(x))) for x in tree.bst]), q(u), z(int(tree.sample_with_u(u)))]))
     hdr = ("From Coq Require Import ZArith QArith Qabs List Bool.\nFrom RV Require Import Base.QB Base.Corr Proofs.Tie_PyLoops "
-           "Gen.GenTieDrift Gen.GenTieChain Gen.GenTieBst Gen.GenTieCoupling.\n")
+           "Gen.GenTieDrift Gen.GenTieChain Gen.GenTieBst Gen.GenTieCoupling Gen.GenTiePaths Gen.GenTieChain2d Gen.GenTieAlias.\n")
     groups = [
         ("mu_h", "list Q * Z * Q", f"fun c => match c with (xs, o, e) => Qeq_bool (GenTieDrift.compute_mu_h {mass_coq} GenTieChain.middle xs o) e end", mu),
         ("q_vector", "list Q * Z * list Q", f"fun c => match c with (xs, o, e) => qlist_eqb (GenTieChain.create_q_vector {mass_coq} GenTieChain.middle xs o) e end", qv),
         ("prob_right", "list Q * Z * Z * Q", f"fun c => match c with (xs, o, i, e) => Qle_bool (Qabs (GenTieCoupling.probability_to_right_jump {mass_coq} GenTieChain.middle xs o i - e)) (1 # 1125899906842624) end", cp),   # one float division: 2^-50
         ("bst", "Z * list Q * Q * Z", "fun c => match c with (k, t, u, e) => Z.eqb (GenTieBst.sample_with_u k t u) e end", bs),
+        ("intensity_1d", "list Q * Z * Q", f"fun c => match c with (xs, o, e) => Qeq_bool (GenTieChain.compute_intensity_of_jumps_1d {mass_coq} GenTieChain.middle xs o) e end", ij),
+        ("intensity_2d", "list Q * list Q * Z * Q", f"fun c => match c with (xs, ys, o, e) => Qeq_bool (GenTieChain2d.compute_intensity_of_jumps_2d {mass2_coq} GenTieChain.middle xs ys o) e end", i2),
+        ("alias_draw", "Z * list Q * list Z * Q * Z", "fun c => match c with (k, qs, js, u, e) => Z.eqb (GenTieAlias.draw_with_u k qs js u) e end", al),
+        ("chain_over_intervals", "list (list Q) * list Q", "fun c => match c with (vs, e) => qlist_eqb (GenTiePaths.chain_over_intervals vs) e end", co),
     ]
     bad = common.coq_bad_indices("TIE", "spot", hdr, groups)
     return {g: (len(c), bad[g]) for (g, _, _, c) in groups}
 
 
+# (generated module, proof file, source file, old text, new text, what the change is)
+MUTATIONS = [
+    ("GenTieChain", "Tie_Chain", "rpylib/distribution/samplingfactory.py", "    next(cartesian_product)\n", "",
+     "the central block [h_l, h_r] is no longer dropped from the intensity"),
+    ("GenTieChain", "Tie_Chain", "rpylib/distribution/samplingfactory.py", "[grid.axes[k][0], h_l]", "[grid.axes[k][0], h_r]",
+     "the left outer block reaches to h_r"),
+    ("GenTieChain2d", "Tie_Chain2d", "rpylib/distribution/samplingfactory.py", "a, b = zip(*c_set)", "b, a = zip(*c_set)",
+     "lower and upper corners of every block swapped"),
+    ("GenTiePaths", "Tie_Paths", "rpylib/process/markovchain/markovchain.py", "level = pieces[-1][-1]", "level = pieces[-1][0]",
+     "the carried level is the first instead of the last value of the interval"),
+    ("GenTiePaths", "Tie_Paths", "rpylib/process/markovchain/markovchain.py", "if interval_values.shape[0]:", "if interval_values.shape[0] - 1:",
+     "intervals with exactly one jump are skipped"),
+    ("GenTiePaths", "Tie_Paths", "rpylib/process/markovchain/markovchain.py", "pieces.append(level + interval_values)",
+     "pieces.insert(0, level + interval_values)", "pieces are stacked in reverse (outside the translated subset)"),
+    ("GenTieAlias", "Tie_Alias", "rpylib/distribution/variate/alias.py", "        if v < self.q[x]:\n            return x\n        return self.J[x]",
+     "        if v <= self.q[x]:\n            return x\n        return self.J[x]", "the column is kept on v = q[x] too"),
+    ("GenTieAlias", "Tie_Alias", "rpylib/distribution/variate/alias.py", "        v = ku - x\n", "        v = ku - x - 1\n", "the remainder is shifted"),
+    ("GenTieChain", "Tie_Chain", "rpylib/distribution/samplingfactory.py", "from itertools import product", "from itertools import combinations as product",
+     "`product` is no longer itertools.product"),
+]
+
+
+def mutations():
+    """every change of MUTATIONS applied to a private copy of the source file: the module is regenerated from the copy and the
+    proof file recompiled against it in build/TIE/mut (the shared coq/Gen is not touched).  Caught = the translator refuses
+    the function (fail closed) or the equality lemmas no longer compile."""
+    import shutil
+    import subprocess
+    import py2coq
+    from py2coq_specs import SPECS
+    root = common.BUILD / "TIE" / "mut"
+    missed = 0
+    for i, (mod, proof, file, old, new, what) in enumerate(MUTATIONS):
+        d = root / f"m{i}"
+        shutil.rmtree(d, ignore_errors=True)
+        (d / "repo" / Path(file).parent).mkdir(parents=True)
+        (d / "Mut").mkdir()
+        text = (common.REPO / file).read_text()
+        if text.count(old) != 1:
+            print(f"  mutation {i}: source text not found exactly once: {old!r}")
+            missed += 1
+            continue
+        spec = SPECS[mod]
+        for f in {spec["file"]} | {fn["file"] for fn in spec["funcs"] if "file" in fn}:
+            (d / "repo" / Path(f).parent).mkdir(parents=True, exist_ok=True)
+            shutil.copy(common.REPO / f, d / "repo" / f)
+        (d / "repo" / file).write_text(text.replace(old, new))
+        try:
+            gen = py2coq.generate_module(d / "repo", mod, spec)
+        except py2coq.Unsupported as e:
+            print(f"  mutation {i} ({what}): caught, translator refuses: {str(e)[:100]}")
+            continue
+        (d / "Mut" / f"{mod}.v").write_text(gen)
+        pf = (common.COQ / "Proofs" / f"{proof}.v").read_text()
+        assert f" Gen.{mod}" in pf
+        pf = pf.replace(f" Gen.{mod}", "", 1).replace("Import ListNotations.", f"From Mut Require Import {mod}.\nImport ListNotations.", 1)
+        (d / "Mut" / f"{proof}.v").write_text(pf)
+        rc = 0
+        for f in (f"{mod}.v", f"{proof}.v"):
+            r = subprocess.run(f"ulimit -v 8000000; timeout 300 coqc -Q {common.COQ} RV -Q {d / 'Mut'} Mut {d / 'Mut' / f}", shell=True,
+                               capture_output=True, text=True)
+            rc = rc or r.returncode
+            if r.returncode:
+                err = " ".join(r.stderr.split())[-160:]
+                print(f"  mutation {i} ({what}): caught, {f} no longer compiles: ...{err}")
+                break
+        if rc == 0:
+            print(f"  mutation {i} ({what}): MISSED -- the lemmas still hold of the changed source")
+            missed += 1
+    print(f"tie_selftest --mutations: {len(MUTATIONS) - missed}/{len(MUTATIONS)} caught")
+    return 1 if missed else 0
+
+
+SYNTHETIC = '''
+from itertools import product
+def slices(xs, n):
+    ys = xs[::-1]
+    zs = xs[1:n]
+    ws = xs[-2:]
+    s = 0.0
+    for y in ys:
+        s = 2 * s + y
+    for zz in zs:
+        s = s + 3 * zz
+    for w in ws:
+        s = 5 * s - w
+    return s
+def blocks(x, y):
+    rows = [[x, y], [y, x + 1]]
+    pairs = product(*[[r[0], r[1]] for r in rows])
+    next(pairs)
+    acc = 0.0
+    for a, b in pairs:
+        acc = 2 * acc + (a - b)
+    for k, (c, d) in enumerate(rows):
+        acc = 3 * acc + (c - 2 * d) * (k + 1)
+    return acc
+'''
+
+
+def synthetic():
+    """unit test of the second-pass plug-in features that no /repo function exercises yet (xs[::-1], xs[a:b], xs[-k:], a
+    comprehension with a subscripted static row, next / for over a product iterator, enumerate over a static list with a nested target): the generated
+    definitions against `exec` of the same source on dyadic inputs"""
+    import ast
+    import random
+    import py2coq
+    ns = {}
+    exec(SYNTHETIC, ns)
+    tree = ast.parse(SYNTHETIC)
+    spec = {"dom": "Q", "ext": "py2coq_loops"}
+    fns = [{"py": "slices", "coq": "slices", "args": [("xs", "list Q"), ("n", "Z")], "ret": "Q", "lists": {"xs": ("xs", "Q")}, "int_names": ["n"]},
+           {"py": "blocks", "coq": "blocks", "args": [("x", "Q"), ("y", "Q")], "ret": "Q", "emitter": "py2coq_loops:checked",
+            "require_imports": {"product": "itertools"}}]
+    defs = "\n".join(py2coq.translate_function(tree, spec, fn) for fn in fns)
+    rnd = random.Random(7)
+    q, z, L = common.qlit, common.zlit, common.lst
+    c1, c2 = [], []
+    for _ in range(30):
+        xs = [rnd.randint(-16, 16) / 4 for _ in range(rnd.randint(0, 6))]
+        n = rnd.randint(-3, 8)
+        c1.append(common.tup([L([q(x) for x in xs]), z(n), q(ns["slices"](xs, n))]))
+        x, y = rnd.randint(-16, 16) / 4, rnd.randint(-16, 16) / 4
+        c2.append(common.tup([q(x), q(y), q(ns["blocks"](x, y))]))
+    hdr = ("From Coq Require Import ZArith QArith Qminmax Qabs List Bool.\nFrom RV Require Import Base.QB Base.Corr Proofs.Tie_PyLoops.\n"
+           "Import ListNotations.\nOpen Scope Q_scope.\n" + defs + "\nClose Scope Q_scope.\n")
+    groups = [("synthetic_slices", "list Q * Z * Q", "fun c => match c with (xs, n, e) => Qeq_bool (slices xs n) e end", c1),
+              ("synthetic_blocks", "Q * Q * Q", "fun c => match c with (x, y, e) => Qeq_bool (blocks x y) e end", c2)]
+    bad = common.coq_bad_indices("TIE", "synthetic", hdr, groups)
+    return {g: (len(c), bad[g]) for (g, _, _, c) in groups}
+
+
 def main():
+    if "--mutations" in sys.argv:
+        return mutations()
     if "--table" in sys.argv:
         print("| generated module | source function | equality lemma | hand model | property |\n|---|---|---|---|---|")
         for mod, fun, lem, f, model, prop in TABLE:
@@ -147,7 +340,7 @@ def main():
                     fails.append(f"{lem} depends on {alien}")
     if ok:
         try:
-            for g, (cnt, bad) in spot_check().items():
+            for g, (cnt, bad) in list(spot_check().items()) + list(synthetic().items()):
                 print(f"  spot check {g}: {cnt} cases, {len(bad)} disagreement(s)")
                 if bad:
                     fails.append(f"generated {g} disagrees with the running Python function on cases {bad[:5]}")
